@@ -590,7 +590,8 @@ MANIFEST = dict(
          "gc_odd / gc_strict_mono / gc_injective, ccm_linear, cdmusic_charge_sum / cdmusic_exact, dl_charge_neutral, "
          "donnan_charge_neutral(_exact) (root of calc_psi_avg's function ⇒ Donnan layer holds −A·f_sinh·sinh(Fψ/2RT)/F), "
          "donnan_boltzmann(_mul) (layer/solution concentration ratio = exp(cd_m·z·p), multiplicative in z), donnanG_content_pos, "
-         "dl_species_charge, kCalc_vant_hoff, site_drift_bound (kinetic-related sites over n calculations), source_constants; "
+         "dl_species_charge, kCalc_vant_hoff, rewrite_dz / electro_cd_linear / chain_mass_action / source_trxn_add (species written from a "
+         "non-master parent: effective -cd_music distribution = own + Σ coef·parent, as trxn_add does), site_drift_bound (kinetic-related sites over n calculations), source_constants; "
          "non-vacuity examples. Obligation over generated data: pmodel surface (same definitions on Float) recomputes on each "
          "completed calculation: Σ species = defined sites (and = proportion × reactant for related surfaces, with the proved drift "
          "bound); log a = log K(T) + Σν·log a_j + electrostatic term with reaction/log K/ΔH/charges/-cd_music taken from the "
